@@ -58,8 +58,23 @@ class Report:
     def check(self, rule, key, ok, where, required, found, nontrivial=True, detail=None):
         """Record a rule instance. key identifies the construct WITHOUT line numbers."""
         full = "%s|%s" % (rule, key)
+        # rule bundles overlap with the rules a property's module runs itself: an identical instance is recorded once
+        seen = self.__dict__.setdefault("_seen_instances", set())
+        sig = (full, bool(ok), where, str(found))
+        if sig in seen:
+            return bool(ok)
+        seen.add(sig)
         self.instances.append(Instance(rule, full, bool(ok), where, required, found, nontrivial, detail))
         return bool(ok)
+
+    def once(self, fn, *args, **kw):
+        """run a rule function at most once per report (rule bundles overlap)"""
+        done = self.__dict__.setdefault("_once", set())
+        key = (getattr(fn, "__module__", ""), getattr(fn, "__name__", repr(fn)), repr(sorted(kw.items())), repr(args[3:]))
+        if key in done:
+            return
+        done.add(key)
+        fn(*args, **kw)
 
     def missing_anchor(self, rule, what):
         self.check(rule, "anchor-missing|%s" % what, False, "-", "anchor `%s` exists in the lib crate" % what,
